@@ -86,17 +86,17 @@ Inputs == <<
 
 \* inputs of family "cells": [sels, files]; a selector of the whole value (key 0) selects an object without p
 CellInputs == <<
-  \* no selector: three values in one file, two in the next
-  [sels |-> <<>>, files |-> << << <<A(<<"o0", "o1", "n1">>)>>, <<A(<<"o0">>)>>, <<S("o0")>> >>, << <<S("o1")>>, <<S("o0")>> >> >>],
+  \* no selector: three values in one file, one in the next
+  [sels |-> <<>>, files |-> << << <<A(<<"o0", "o1">>)>>, <<S("o0")>>, <<S("n1")>> >>, << <<S("o1")>> >> >>],
   \* the same subtree twice
-  [sels |-> <<1, 1>>, files |-> << << <<A(<<"o0", "o1">>), A(<<"o0", "o1">>)>>, <<S("o0"), S("o0")>> >>, << <<S("o1"), S("o1")>> >> >>],
+  [sels |-> <<1, 1>>, files |-> << << <<A(<<"o0", "o1">>), A(<<"o0", "o1">>)>>, <<S("o0"), S("o0")>> >> >>],
   \* a subtree, then the whole value; the whole value, then a subtree
   [sels |-> <<1, 0>>, files |-> << << <<A(<<"o0", "s1">>), S("o0")>>, <<S("o0"), S("o0")>> >> >>],
-  [sels |-> <<0, 1>>, files |-> << << <<S("o0"), A(<<"o1", "o0">>)>> >>, << <<S("o0"), S("o1")>>, <<S("o0"), S("nul")>> >> >>],
+  [sels |-> <<0, 1>>, files |-> << << <<S("o0"), A(<<"o1", "o0">>)>> >>, << <<S("o0"), S("o1")>> >> >>],
   \* two subtrees around a repeated one
-  [sels |-> <<1, 2, 1>>, files |-> << << <<S("o0"), A(<<"o0">>), S("o0")>>, <<A(<<"o0", "o0">>), S("n1"), A(<<"o0", "o0">>)>> >> >>],
-  \* arrays only ($index is printed), the same subtree twice, two values in the first file
-  [sels |-> <<1, 1>>, files |-> << << <<A(<<"o0", "o1">>), A(<<"o0", "o1">>)>>, <<A(<<"n1">>), A(<<"n1">>)>> >>, << <<A(<<"o1", "o0">>), A(<<"o1", "o0">>)>> >> >>]
+  [sels |-> <<1, 2, 1>>, files |-> << << <<S("o0"), A(<<"o0">>), S("o0")>>, <<A(<<"o0">>), S("n1"), A(<<"o0">>)>> >> >>],
+  \* arrays only ($index is printed), the same subtree twice, two values
+  [sels |-> <<1, 1>>, files |-> << << <<A(<<"o0", "o1">>), A(<<"o0", "o1">>)>>, <<A(<<"n1">>), A(<<"n1">>)>> >> >>]
 >>
 
 RuleLists == {
